@@ -320,6 +320,9 @@ pub enum Mode {
     /// buffered source that reports end of input, and delivers more bytes once Eof (or a syntax
     /// error) has been returned: the reader must not go back to it
     ReaderBufferedGrowing,
+    /// slice / buffered reader with raw reads through the synchronous `Reader::stream()` between events:
+    /// `read` into buffers that are larger than what is left, `read_exact` that cannot be satisfied, `read_to_end`
+    ReaderSyncStream,
     ReaderAsync,
     NsSlice,
     NsBuffered,
@@ -334,6 +337,7 @@ impl Mode {
             Mode::ReaderSlice => "reader.slice",
             Mode::ReaderBuffered => "reader.buffered",
             Mode::ReaderBufferedGrowing => "reader.buffered_source_grows_after_eof",
+            Mode::ReaderSyncStream => "reader.sync_with_stream_reads",
             Mode::ReaderAsync => "reader.async",
             Mode::NsSlice => "nsreader.slice",
             Mode::NsBuffered => "nsreader.buffered",
@@ -347,6 +351,7 @@ impl Mode {
             "nsreader.slice_with_skips" => Mode::NsSliceSkips,
             "reader.buffered" => Mode::ReaderBuffered,
             "reader.buffered_source_grows_after_eof" => Mode::ReaderBufferedGrowing,
+            "reader.sync_with_stream_reads" => Mode::ReaderSyncStream,
             "reader.async" => Mode::ReaderAsync,
             "nsreader.slice" => Mode::NsSlice,
             "nsreader.buffered" => Mode::NsBuffered,
@@ -539,6 +544,81 @@ pub fn drive(input: &[u8], cfg: u8, mode: Mode, cuts: &[usize], pending: &[u8], 
                 },
                 false
             );
+        }
+        Mode::ReaderSyncStream => {
+            use std::io::Read;
+            // cuts empty: the borrowing reader; otherwise the buffering one
+            macro_rules! run {
+                ($r:ident, $read:expr) => {{
+                    apply_cfg($r.config_mut(), cfg);
+                    let mut finished = false;
+                    for _ in 0..limit {
+                        if !inv.terminal && (inv.calls + cfg as usize) % 3 == 1 {
+                            let before = $r.buffer_position();
+                            let kind = (inv.calls / 3 + cfg as usize) % 4;
+                            let n = [1usize, 5, len + 3, 64][(inv.calls + cfg as usize) % 4];
+                            let mut raw = vec![0u8; n];
+                            let res = guarded(|| -> Result<Option<usize>, String> {
+                                let mut st = $r.stream();
+                                Ok(match kind {
+                                    0 | 1 => Some(st.read(&mut raw).map_err(|e| e.to_string())?),
+                                    2 => match st.read_exact(&mut raw) {
+                                        Ok(()) => Some(n),
+                                        Err(_) => None,
+                                    },
+                                    _ => {
+                                        let mut v = Vec::new();
+                                        let got = st.read_to_end(&mut v).map_err(|e| e.to_string())?;
+                                        finished = true;
+                                        Some(got)
+                                    }
+                                })
+                            });
+                            let got = match res {
+                                Ok(Ok(g)) => g,
+                                Ok(Err(e)) => return Err(format!("stream() read after call {}: {}", inv.calls, e)),
+                                Err(p) => return Err(format!("stream() read after call {}: {}", inv.calls, p)),
+                            };
+                            loc.stream_reads += 1;
+                            let pos = $r.buffer_position();
+                            if pos < before || pos > len as u64 {
+                                return Err(format!("after a raw read through stream() the position went from {} to {} (input length {})", before, pos, len));
+                            }
+                            if let Some(g) = got {
+                                if pos - before != g as u64 {
+                                    return Err(format!("a raw read through stream() returned {} byte(s) but the position went from {} to {} (input length {})", g, before, pos, len));
+                                }
+                            }
+                            // (after a text the reader has already taken the '<' of the next markup and reports the
+                            // position in front of it, so the end of a raw read_to_end is len or len - 1)
+                            if finished && pos + 1 < len as u64 {
+                                return Err(format!("stream().read_to_end() left the position at {} of {}", pos, len));
+                            }
+                            inv.prev_pos = pos;
+                        }
+                        let res = match guarded(|| $read) {
+                            Ok(r) => r,
+                            Err(p) => return Err(format!("read call {}: {}", inv.calls, p)),
+                        };
+                        let obs = result_obs(&res);
+                        drop(res);
+                        if inv.step(&obs, $r.buffer_position(), $r.error_position(), loc)? {
+                            break;
+                        }
+                    }
+                }};
+            }
+            if cuts.is_empty() {
+                let mut r = Reader::from_reader(input);
+                run!(r, r.read_event().map(|e| e.into_owned()));
+            } else {
+                let mut r = Reader::from_reader(ChunkedRead::new(input, cuts.to_vec()));
+                let mut buf = Vec::new();
+                run!(r, {
+                    buf.clear();
+                    r.read_event_into(&mut buf).map(|e| e.into_owned())
+                });
+            }
         }
         Mode::ReaderBufferedGrowing => {
             let mut data = input.to_vec();
@@ -774,6 +854,12 @@ fn one_input(ctx: &mut Ctx, loc: &mut Local, input: &[u8], r: &mut Rng, heavy: b
     if heavy || r.chance(1, 8) {
         let m = if r.bool() { Mode::ReaderSliceSkips } else { Mode::NsSliceSkips };
         if !run_case(ctx, loc, input, (r.next() & 0x7F) as u8, m, &[], &[]) {
+            return false;
+        }
+    }
+    if (heavy && r.chance(1, 3)) || r.chance(1, 24) {
+        let cuts = if r.bool() || input.len() < 2 { vec![] } else { cuts_for_piece(input.len(), 1 + r.below(3), 0) };
+        if !run_case(ctx, loc, input, (r.next() & 0x7F) as u8, Mode::ReaderSyncStream, &cuts, &[]) {
             return false;
         }
     }
